@@ -1,6 +1,6 @@
 (* C05 - override, bump and reset semantics follow the precedence order.
    Model: Model/Bump.v (bump/*.rs) + Model/Cli.v (argument resolution, context overrides, zerv_draft). *)
-From ZV Require Import Str Zerv Bump Cli BumpProofs CtxFrame.
+From ZV Require Import Str Dec Zerv Bump Cli BumpProofs CtxFrame PepRoundTrip IndexOps.
 
 (* the engine IS a single pass over the precedence order, override-then-bump per level (by definition of the model;
    stated so that a change of shape is visible) *)
@@ -58,6 +58,22 @@ Proof. vm_compute. reflexivity. Qed.
 Theorem c05_context_untouched : forall a z z', apply_component_processing a z = Some z' -> ctxv (z_vars z') = ctxv (z_vars z).
 Proof. exact processing_keeps_context. Qed.
 
+(* an index-addressed operation on a position holding a version variable is exactly the by-name override / bump of that variable *)
+Theorem c05_index_op_is_by_name : forall sec ix v o b z,
+  nth_error (get_part (z_schema z) sec) ix = Some (CVar v) -> (forall p, v <> Ts p) ->
+  (match o with Some n => u32 n | None => True end) -> (match b with Some n => u32 n | None => True end) ->
+  process_component sec ix (num_text o) (num_text b) z
+  = match by_name (prec_order (z_schema z)) v o b (z_vars z) with Some vs => Some {| z_schema := z_schema z; z_vars := vs |} | None => None end.
+Proof. exact index_op_is_by_name. Qed.
+
+(* invalid targets are rejected: VCS-derived variables, custom values and timestamps; positions outside the section *)
+Theorem c05_index_op_rejects_context : forall sec ix v ov bv z,
+  nth_error (get_part (z_schema z) sec) ix = Some (CVar v) -> is_primary v = false -> is_secondary v = false ->
+  process_component sec ix ov bv z = None.
+Proof. exact index_op_rejects_context. Qed.
+Theorem c05_index_op_out_of_range : forall sec ix ov bv z, nth_error (get_part (z_schema z) sec) ix = None -> process_component sec ix ov bv z = None.
+Proof. exact index_op_out_of_range. Qed.
+
 Print Assumptions c05_is_level_fold.
 Print Assumptions c05_reset_frame.
 Print Assumptions c05_no_higher_level_changes.
@@ -65,3 +81,6 @@ Print Assumptions c05_override_local.
 Print Assumptions c05_reset_effect.
 Print Assumptions c05_numeric_levels.
 Print Assumptions c05_context_untouched.
+Print Assumptions c05_index_op_is_by_name.
+Print Assumptions c05_index_op_rejects_context.
+Print Assumptions c05_index_op_out_of_range.
